@@ -406,6 +406,8 @@ impl Driver {
     }
 
     pub fn flush(&mut self) -> bool {
+        #[cfg(compio_verif)]
+        compio_log::verif::point("drv.flush", 1, 0);
         self.notify.reset()
     }
 
@@ -463,6 +465,8 @@ impl Driver {
 
     pub fn poll(&mut self, mut timeout: Option<Duration>) -> io::Result<()> {
         instrument!(compio_log::Level::TRACE, "poll", ?timeout);
+        #[cfg(compio_verif)]
+        compio_log::verif::point("drv.poll", 1, timeout.map(|t| t.as_millis() as u64).unwrap_or(u64::MAX));
         let timeout_is_some = timeout.is_some();
         let has_completed = !self.completed_rx.is_empty();
         let need_wait = !self.notify.reset();
@@ -472,7 +476,11 @@ impl Driver {
         // We need to poll the poller first to make sure it handles the internal notify
         // event (if any).
         self.events.clear();
+        #[cfg(compio_verif)]
+        compio_log::verif::point("drv.wait.enter", 1, timeout.map(|t| t.as_millis() as u64).unwrap_or(u64::MAX));
         self.notify.poll.wait(&mut self.events, timeout)?;
+        #[cfg(compio_verif)]
+        compio_log::verif::point("drv.wait.leave", 1, 0);
         self.notify.set_awake();
         if self.events.is_empty() {
             if self.poll_completed() {
@@ -596,6 +604,8 @@ impl Wake for Notify {
 
     fn wake_by_ref(self: &Arc<Self>) {
         if !self.awake.wake() {
+            #[cfg(compio_verif)]
+            compio_log::verif::point("notify.write", 1, 0);
             self.poll.notify().ok();
         }
     }
